@@ -18,7 +18,8 @@ use quantities::prelude::*;
 #[unit(Kilo_Alpha, "ka", KILO, 0.001)]
 pub struct SynA {}
 
-/// Reference unit without prefix, written in the middle; a tie at 12.
+/// Reference unit without prefix, written in the middle; a tie at 12; one
+/// unit without symbol.
 #[quantity]
 #[unit(Beta_Half, "bh", 0.5)]
 #[unit(Beta_Dozen, "bd", 12)]
@@ -27,6 +28,7 @@ pub struct SynA {}
 #[unit(Beta_Odd, "bo", 0.037)]
 #[unit(Beta_Big, "bb", 1000000.)]
 #[unit(Beta_One, "b1", 1)]
+#[unit(Beta_Bare, "", 3)]
 pub struct SynB {}
 
 #[quantity(SynA * SynB)]
@@ -62,7 +64,8 @@ pub struct SynSq {}
 #[unit(Per_Two, "2/β", 2)]
 pub struct SynF {}
 
-/// No reference unit; units written out of name order.
+/// No reference unit; units written out of name order; `Alpha Two` sorts
+/// before `AlphaZed` by name and after it by identifier.
 #[quantity]
 #[unit(Zeta, "ζ")]
 #[unit(Alpha_Two, "α2", "documented")]
@@ -70,6 +73,7 @@ pub struct SynF {}
 #[unit(Alpha, "α")]
 #[unit(delta_low, "δ")]
 #[unit(Mid_Twin, "m")]
+#[unit(AlphaZed, "αz")]
 pub struct SynN {}
 
 /// Single unit.
